@@ -166,6 +166,10 @@ static void push_evt(m_mod_t *mod, evt_priv_t *evt) {
                 mod->tb.tokens++;
             }
         }
+        if (!force) {
+            /* Only the batch timer makes the accumulated events due */
+            return;
+        }
     } else {
         m_queue_enqueue(mod->batch.events, evt);
         /*
